@@ -52,7 +52,12 @@ func StringUtils_guessCharset(bytes []byte, hints map[gozxing.DecodeHintType]int
 			return eci.GetCharset(), nil
 		}
 
-		return ianaindex.IANA.Encoding(name)
+		enc, err := ianaindex.IANA.Encoding(name)
+		if err == nil && enc == nil {
+			// registered with IANA but not implemented by golang.org/x/text
+			return nil, fmt.Errorf("unsupported character set %v", name)
+		}
+		return enc, err
 	}
 
 	// First try UTF-16, assuming anything with its BOM is UTF-16
